@@ -148,19 +148,19 @@ theorem emit_dep (root cur : Nat) : ∀ (e : Expr F) (s : LState F), wfE e = tru
     exact ⟨d1.trans (.push _ _ _), by simp [z1, fall]⟩
   | .cond onTrue c t, s, hw => by
     simp only [wfE, Bool.and_eq_true] at hw
-    obtain ⟨d1, z1⟩ := emit_dep root cur c s hw.1.1
+    obtain ⟨d1, z1⟩ := emit_dep root cur c s hw.1
     obtain ⟨d2, z2⟩ := condTail_dep (cur := cur) (onTrue := onTrue) (t := t) z1
     simp only [emit, len]
     exact ⟨d1.trans d2, z2⟩
   | .and l r, s, hw => by
     simp only [wfE, Bool.and_eq_true] at hw
-    obtain ⟨d1, z1⟩ := emit_dep root cur l s hw.1.1
+    obtain ⟨d1, z1⟩ := emit_dep root cur l s hw.1
     obtain ⟨d2, z2⟩ := logicalTail_dep (cur := cur) (r := r) (s1 := emit root cur l s) (.inl rfl)
     simp only [emit, len]
     exact ⟨d1.trans d2, by rw [z2, z1]⟩
   | .or l r, s, hw => by
     simp only [wfE, Bool.and_eq_true] at hw
-    obtain ⟨d1, z1⟩ := emit_dep root cur l s hw.1.1
+    obtain ⟨d1, z1⟩ := emit_dep root cur l s hw.1
     obtain ⟨d2, z2⟩ := logicalTail_dep (cur := cur) (r := r) (s1 := emit root cur l s) (.inr rfl)
     simp only [emit, len]
     exact ⟨d1.trans d2, by rw [z2, z1]⟩
@@ -224,7 +224,7 @@ theorem emitArms_dep (root cur : Nat) : ∀ (arms : List (Bool × Expr F × Expr
   | [], s, _ => by simp only [emitArms, lenArms]; exact ⟨.refl s, trivial⟩
   | (onTrue, c, t) :: rest, s, hw => by
     simp only [wfEArms, Bool.and_eq_true] at hw
-    obtain ⟨d1, z1⟩ := emit_dep root cur c s hw.1.1.1
+    obtain ⟨d1, z1⟩ := emit_dep root cur c s hw.1.1
     obtain ⟨d2, z2⟩ := emitArms_dep root cur rest
       (((emit root cur c s).pushJump 0).push (jumpIf onTrue) (some (emit root cur c s).jumps.size)) hw.2
     simp only [emitArms, lenArms]
